@@ -63,6 +63,9 @@ EmitAcc == (\E q \in Advance(RefPaths, EOFTok) : q.v = "acc") => Emit
 OneRefPath == Cardinality(RefPaths) = 1          \* the reference is deterministic
 GatedInv == \A p \in paths : Gated(T, p)         \* C07 at design level
 RejectSticksInv == \A p \in paths : RejectSticks(p)
+\* C04 at design level: every accepted, regular script re-reads from its canonical serialisation
+RoundTrip == \A p \in RefPaths : p.v = "run" =>
+                LET e == RefStep(T, p, EOFTok) IN (e.v = "acc" /\ e.irr = {}) => RoundTripOf(T, e)
 OneTokenPerStep == \A p \in paths : p.v = "run" => p.n = Len(Prelude) + Len(toks)
 Progress == [][Len(toks') = Len(toks) + 1]_vars
 =============================================================================
